@@ -168,7 +168,7 @@ pub fn cfg_for(tier: Tier) -> PicCfg {
 pub fn run(ctx: &Ctx) -> i32 {
     let cfg = cfg_for(ctx.tier);
     let mut reports = vec![super::regression_suite(ctx)];
-    let cases = ctx.tier.pick(30_000u64, 500_000u64);
+    let cases = ctx.tier.pick(60_000u64, 500_000u64);
     reports.push(tape_suite(ctx, "stream_vs_own_reader", cases, 8192, &move |g| stream_case(g, &cfg)));
     finish(
         ctx,
